@@ -235,6 +235,13 @@ def worker_main(jobfile, shard, nshards):
             obs = ml.abs_state(w)
         except ml.Uncovered as u:
             stats["uncovered"] += 1
+            if res["exc"] is None and str(u).startswith("location"):
+                # every location of the spec state is in the binding table: a definition over a location that is not
+                # cannot be the state the specification prescribes
+                t_ = ("C12" if lab.get("kind", "").startswith("pickle") else "C11") if lab["a"] == "Transfer" else \
+                     ("C13" if lab["a"] == "GenFun" else "C03")
+                fail([t_, "C01"] if t_ == "C03" else [t_], f"{lab['a']}({lab.get('kind', lab.get('l', ''))}): the manager now holds a definition over a "
+                     f"location outside the specification's universe: {u}", eis[0], {"uncovered": str(u)})
             return
         if lab.get("trig") and epi["cur"] is None:
             stats["nontrivial"] += 1
